@@ -105,6 +105,11 @@ func (n anode) build(forms []int, hist ...bool) any {
 		} else {
 			c = stackage.Cond(n.Kw, stackage.Ge, n.Kids[0].build(forms))
 		}
+		if n.Clos {
+			// an equality closure of the Condition's own, with an answer the built-in comparison would not give
+			c.SetEqualityPolicy(func(a, b any) error { return errE })
+			c.SetValidityPolicy(func(...any) error { return nil })
+		}
 		f := condForms[forms[n.Pos-1]%len(condForms)]
 		switch f {
 		case "alias":
@@ -247,13 +252,17 @@ func c12Run(c *Ctx, cs c12Case, count bool) {
 			break
 		}
 	}
-	// IsEqual both ways between the alias tree and the native tree
+	// IsEqual both ways between the alias tree and the native tree: the answer two native trees give each
+	// other (nil, unless a nested instance carries an equality closure of its own that says otherwise)
+	nr2 := cs.Tree.build(native).(stackage.Stack)
+	var want [2]error
+	noPanic(func() { want[0], want[1] = nr2.IsEqual(nr), nr.IsEqual(nr2) })
 	for dir, pair := range [][2]stackage.Stack{{ar, nr}, {nr, ar}} {
 		var err error
 		if p := noPanic(func() { err = pair[0].IsEqual(pair[1]) }); p != "" {
 			c.Violation(key("panic:IsEqual"), desc+": IsEqual panicked: "+p, cs, size)
-		} else if err != nil {
-			c.Violation(key("IsEqual"), fmt.Sprintf("%s: IsEqual (direction %d, 0 = alias tree as receiver) = %v", desc, dir, err), cs, size)
+		} else if fmt.Sprint(err) != fmt.Sprint(want[dir]) {
+			c.Violation(key("IsEqual"), fmt.Sprintf("%s: IsEqual (direction %d, 0 = alias tree as receiver) = %v, two native trees answer %v", desc, dir, err, want[dir]), cs, size)
 		}
 	}
 	// Defrag and Transfer give the same results on both trees
@@ -276,6 +285,34 @@ func c12Run(c *Ctx, cs c12Case, count bool) {
 	}
 	if ta != tn {
 		c.Violation(key("differs:Transfer"), fmt.Sprintf("%s: Transfer gives %s, native %s", desc, ta, tn), cs, size)
+	}
+	// a change made below a (read-only, already rendered) root through the nested instance's own handle
+	// shows in the root's next rendering, whatever form the nested instance is stored in
+	var la, ln []string
+	if p := noPanic(func() {
+		a2 := cs.Tree.build(cs.Forms, true).(stackage.Stack)
+		n2 := cs.Tree.build(native).(stackage.Stack)
+		for _, root := range []stackage.Stack{a2, n2} {
+			root.SetReadOnly(true)
+			_ = root.String()
+			root.Unmarshal()
+			for _, e := range contents(root) {
+				if st, ok := refAsStack(e); ok {
+					st.Push("pushed-later")
+					st.SetSymbol("later")
+				} else if cd, ok := refAsCond(e); ok {
+					cd.SetKeyword("kw-later")
+				}
+			}
+		}
+		la, _ = c12Probe(a2, 1, 1)
+		ln, _ = c12Probe(n2, 1, 1)
+	}); p != "" {
+		c.Violation(key("panic:edit-below-read-only-root"), desc+": "+p, cs, size)
+		return
+	}
+	if strings.Join(la, "\n") != strings.Join(ln, "\n") {
+		c.Violation(key("differs:after-edit-below"), fmt.Sprintf("%s: after a Push / SetSymbol / SetKeyword on the nested instances below the read-only, already rendered root the alias tree reads %v, the native tree %v", desc, la[:min(2, len(la))], ln[:min(2, len(ln))]), cs, size)
 	}
 	if count {
 		nonNative := false
@@ -388,6 +425,8 @@ func c12Trees(c *Ctx) []anode {
 	// nested Stacks with closures of their own
 	Sc := func(k string, kids ...anode) anode { return anode{T: "S", K: k, Kids: kids, Clos: true} }
 	trees = append(trees, S("AND", lf("a"), Sc("OR", lf("x"), lf("y")), lf("b")), S("LIST", C("k", Sc("AND", lf("p"))), Sc("NOT", lf("q"))))
+	Cc := func(kw string, ex anode) anode { return anode{T: "C", Kw: kw, Kids: []anode{ex}, Clos: true} }
+	trees = append(trees, S("AND", lf("a"), Cc("ck", lf("v"))), S("OR", Cc("ck", S("LIST", lf("e"))), C("outer", Cc("inner", lf("w")))))
 	// the long regime: wide parents (8, 9, 20 elements) with the nested position first, in the middle, last
 	for _, w := range []int{8, 9, 20} {
 		for _, at := range []int{0, w / 2, w - 1} {
